@@ -18,8 +18,8 @@ def sug(w, n=1, ps=('p1',), raise_=False):
   return {'rpc': 'SuggestTrials', 's': 's1', 'w': w, 'n': n, 'env': {'raise': raise_, 'ps': list(ps), 'md': dict(NM)}}
 
 
-def sug_md(w, v):
-  c = sug(w)
+def sug_md(w, v, ps=('p1',)):
+  c = sug(w, ps=ps)
   c['env']['md'] = {'c1': v}
   return c
 
@@ -80,6 +80,8 @@ SCENARIOS = [
     # found by TLC on Spec B (VizierConcurrent.tla): the algorithm's own study metadata vs a study-state change
     ('suggest_algometa_setstate', P0, {'A': sug_md('w1', 'v2'), 'B': setst('INACTIVE')}, None),
     ('suggest_algometa_study_metadata', P0, {'A': sug_md('w1', 'v2'), 'B': md_study('v1')}, 2),
+    # a stateful algorithm (next persisted state = successor of the stored one): two overlapping suggests must advance it twice
+    ('suggest_suggest_stateful', P0, {'A': sug_md('w1', 'inc'), 'B': sug_md('w2', 'inc', ps=('p2',))}, 2),
     ('suggest_earlystop', P_ACT, {'A': sug('w2', ps=('p2',)), 'B': es(1)}, 2),
     ('complete_stop', P_ACT, {'A': comp(1), 'B': STOP1}, None),
     ('complete_complete', P_ACT, {'A': comp(1, 'm1'), 'B': comp(1, 'm2')}, None),
@@ -102,6 +104,19 @@ SCENARIOS = [
     ('earlystop_earlystop', P_ACT, {'A': es(1, True), 'B': es(1, False)}, 2),
     ('earlystop_stop', P_ACT, {'A': es(1), 'B': STOP1}, None),
 ]
+# Races INSIDE the datastore: the SQL datastore shares one connection, and a rollback issued on behalf of one client
+# (CreateStudy for an existing owner, a refused UpdateMetadata) discards whatever another client has written but not yet
+# committed.  These scenarios run on SQLite with an extra yield point at every release of the datastore's own lock.
+CONF2 = {'Studies': ['s1', 's2'], 'Clients': ['w1'], 'MaxId': 3, 'Cells': ['c1'], 'Recycle': 'always'}
+CS2 = {'rpc': 'CreateStudy', 's': 's2', 'cfg': 'max1'}
+BADMD = {'rpc': 'UpdateMetadata', 's': 's1', 'd': {'study': dict(NM), 't': 3, 't2': 0, 'trial': {'c1': 'v1'}}}
+INNER = [
+    ('inner_setstate_createstudy2', P0, {'A': setst('INACTIVE'), 'B': CS2}, 3),
+    ('inner_measure_createstudy2', P_ACT, {'A': meas(1, 'm1'), 'B': CS2}, 3),
+    ('inner_complete_refusedmetadata', P_ACT, {'A': comp(1), 'B': BADMD}, 3),
+    ('inner_studymetadata_createstudy2', P0, {'A': md_study('v1'), 'B': CS2}, 3),
+    ('inner_stop_refusedmetadata', P_ACT, {'A': STOP1, 'B': BADMD}, 3),
+]
 TRIPLES = [
     ('three_suggest_create_complete', P_ACT, {'A': sug('w2', ps=('p2',)), 'B': REQ, 'C': comp(1)}, 1),
     ('three_measure_measure_complete', P_ACT, {'A': meas(1, 'm1'), 'B': meas(1, 'm2'), 'C': comp(1, 'None')}, 2),
@@ -117,7 +132,8 @@ def run_schedule(args):
   import sched
   import threading
   import world
-  w = world.World(CONF, backend=backend)
+  inner = name.startswith('inner_')
+  w = world.World(CONF2 if inner else CONF, backend=backend)
   events = []
   for c in prefix:
     events.append({'ev': 'invoke', 'th': 'P', 'call': c})
@@ -126,6 +142,29 @@ def run_schedule(args):
     events.append({'ev': 'return', 'th': 'P', 'resp': r})
   s = sched.Sched(schedule)
   restore = sched.instrument(w.svc, s)
+  if inner:
+    real_ds = w.svc.datastore._i        # behind the scheduler's proxy
+    real_lock = real_ds._lock
+
+    class ReleaseYieldLock:
+      """The datastore's own lock, plus a yield point right after every release (only one thread runs at a time)."""
+
+      def __enter__(self):
+        real_lock.acquire()
+        return self
+
+      def __exit__(self, *a):
+        real_lock.release()
+        tid = getattr(threading.current_thread(), 'verif_tid', None)
+        if tid is not None:
+          s.yield_point(tid, ('ds-lock', 'released'))
+
+      def acquire(self, *a, **k):
+        return real_lock.acquire(*a, **k)
+
+      def release(self):
+        self.__exit__()
+    real_ds._lock = ReleaseYieldLock()
   lock = threading.Lock()
 
   def mk(tid, c):
@@ -172,6 +211,7 @@ POS_RE = re.compile(r'<<"POS", (\d+), (\d+)>>')
 
 def _judge_chunk(args):
   traces, workdir, name = args
+  CONF = CONF2 if name.startswith('inner') else globals()['CONF']
   path = os.path.join(workdir, name + '.lin.json')
   with open(path, 'w') as f:
     json.dump(traces, f)
@@ -247,13 +287,13 @@ def spec_b(ctx, d):
 def run(ctx, only=None):
   import world  # noqa: F401
   cov = ctx.coverage
-  scen = list(SCENARIOS) + (TRIPLES if ctx.thorough else TRIPLES[:1])
+  scen = list(SCENARIOS) + (TRIPLES if ctx.thorough else TRIPLES[:1]) + INNER
   if only:
     scen = [s for s in scen if s[0] == only]
   backends = ['ram', 'sqlmem'] if ctx.thorough else ['ram']
   jobs = []
   for name, prefix, calls, qbound in scen:
-    for b in (backends if 'deletestudy' not in name else ['ram', 'sqlmem']):
+    for b in (['sqlmem'] if name.startswith('inner_') else backends if 'deletestudy' not in name else ['ram', 'sqlmem']):
       bound = qbound if not ctx.thorough else (None if len(calls) == 2 else 2)
       limit = 4000 if not ctx.thorough else 20000
       if b == 'sqlmem' and bound is None and len(calls) == 2 and any(c['rpc'] == 'SuggestTrials' for c in calls.values()):
@@ -282,7 +322,20 @@ def run(ctx, only=None):
       cov['scenarios'].append({'name': name, 'backend': b, 'schedules': len(out), 'preemption_bound': bound,
                                'yield_points': {t: sum(1 for x in out[0][3] if x[0] == t) for t in calls} if out else {}})
     ctx.log('explored %d schedules of %d scenarios on the real servicer' % (total, len(jobs)))
-    accepted, reach, res = judge(all_traces, d, 'all')
+    # the datastore-race scenarios have their own constants (two studies): judged in their own TLC runs
+    is_inner = [ix[0].startswith('inner_') for ix in index]
+    main_t = [t for t, f in zip(all_traces, is_inner) if not f]
+    inner_t = [t for t, f in zip(all_traces, is_inner) if f]
+    acc_m, reach_m, res = judge(main_t, d, 'all') if main_t else ([], [], _Res())
+    if not main_t:
+      res.distinct = res.generated = 0
+    acc_i, reach_i, res_i = judge(inner_t, d, 'inner') if inner_t else ([], [], None)
+    if res_i is not None:
+      res.distinct += res_i.distinct
+      res.generated += res_i.generated
+    it_m, it_i = iter(zip(acc_m, reach_m)), iter(zip(acc_i, reach_i))
+    merged = [next(it_i) if f else next(it_m) for f in is_inner]
+    accepted, reach = [m[0] for m in merged], [m[1] for m in merged]
     per = collections.Counter()
     for ok, pos, (name, b, schedule, events, labels, calls, prefix) in zip(accepted, reach, index):
       if ok:
